@@ -15,6 +15,7 @@ class Resolver:
         self._local_cache = {}
         self._factory_map = None
         self._method_names = None
+        self._name_hints = None
         self.stats = {'resolved': 0, 'name': 0, 'external': 0, 'unresolved': 0}
         self.unresolved = []
 
@@ -210,7 +211,34 @@ class Resolver:
             out.extend(self.type_of(fi, v, _depth + 1))
         if not out and fi.outer is not None:
             return self.local_types(fi.outer, name, _depth + 1)
+        if not out and name in fi.params and name not in ('self', 'cls'):
+            out = self.name_hint_types(fi, name)
         return _uniq(out)
+
+    def name_hint_types(self, fi, name):
+        """Naming convention: an unannotated parameter gets the class that parameters of the
+        same name are annotated with elsewhere, restricted to classes visible in fi's module."""
+        if self._name_hints is None:
+            self._name_hints = {}
+            for f in self.repo.funcs.values():
+                a = f.node.args
+                for arg in a.posonlyargs + a.args + a.kwonlyargs:
+                    if arg.annotation is not None:
+                        for ci in self.ann_types(f.module, arg.annotation):
+                            self._name_hints.setdefault(arg.arg, set()).add(ci.qual)
+        cands = self._name_hints.get(name, set())
+        out = []
+        for q in sorted(cands):
+            ci = self.repo.classes[q]
+            # visible in this module: defined here or imported by name
+            vis = ci.module is fi.module
+            if not vis:
+                for local, imp in fi.module.imports.items():
+                    if imp[0] == 'object' and imp[2] == ci.name and imp[1] == ci.module.name:
+                        vis = True
+            if vis:
+                out.append(ci)
+        return out
 
     def dict_value_types(self, fi, expr, _depth=0):
         """Types stored as values of the dict `self.<attr>` (from `self.attr[k] = v` stores)."""
@@ -335,12 +363,15 @@ class Resolver:
                         exts.extend(repo.external_bases(c))
                     # attribute holding a callable: self._factory()
                     out.append(('external' if exts else 'unknown', (exts[0] if exts else t.qual) + '.' + f.attr))
-            if out:
+            if any(k == 'func' for k, _ in out):
                 return _uniq(out)
+            typed_unknown = out
             if allow_name and not self._receiver_is_external(fi, f.value, _depth + 1):
                 cands = self.method_names().get(f.attr, [])
                 if 1 <= len(cands) <= 3 and not _is_common_method(f.attr):
                     return [('func-name', c) for c in cands]
+            if typed_unknown:
+                return _uniq(typed_unknown)
             return [('unknown', ast.unparse(f)[:80])]
         return [('unknown', ast.unparse(f)[:80])]
 
